@@ -3,7 +3,7 @@
 (* Trace validation for Session.tla.  trace.ndjson holds the events        *)
 (* recorded from the real endpoint (harness/sessioncheck), many traces     *)
 (* concatenated; a "Cfg" event starts a new trace:                         *)
-(*   Cfg   lmtp defer nt shape partial                                     *)
+(*   Cfg   lmtp defer nt shape partial hold                                *)
 (*   Cmd   v a r  all ip source   command taken from the wire, with the    *)
 (*                                permits in use at that instant           *)
 (*   Tgt   tgt att op r res st ts call on a scripted target and its result *)
@@ -40,15 +40,16 @@ Publish(d, da, o, dv) ==
   TLCSet(1, TLCGet(1) \cup {[t |-> tno, drift |-> d, driftAt |-> da, viol |-> o.viol, devs |-> dv]})
 
 TInit ==
-  /\ InitWith([lmtp |-> FALSE, defer |-> TRUE, nt |-> 1, shape |-> "split", partial |-> FALSE])
+  /\ InitWith([lmtp |-> FALSE, defer |-> TRUE, nt |-> 1, shape |-> "split", partial |-> FALSE, hold |-> FALSE])
   /\ l = 1 /\ drift = FALSE /\ driftAt = 0 /\ tno = 0
   /\ TLCSet(1, {})
 
 TReset ==
   /\ IsEv("Cfg")
-  /\ cfg' = [lmtp |-> Ev.lmtp, defer |-> Ev.defer, nt |-> Ev.nt, shape |-> Ev.shape, partial |-> Ev.partial]
-  /\ m' = M0 /\ nf' = 0 /\ ncmd' = 0
-  /\ obs' = ObsInit(Ev.lmtp)
+  /\ LET c == [lmtp |-> Ev.lmtp, defer |-> Ev.defer, nt |-> Ev.nt, shape |-> Ev.shape, partial |-> Ev.partial,
+                hold |-> Ev.hold] IN
+       cfg' = c /\ m' = MInit(c) /\ obs' = ObsInit(Ev.lmtp, Base(c))
+  /\ nf' = 0 /\ ncmd' = 0
   /\ hist' = <<>>
   /\ l' = l + 1 /\ drift' = FALSE /\ driftAt' = 0 /\ tno' = Ev.t
 
